@@ -20,14 +20,14 @@ CONFIG = {
         "three quarters of the compile units go through j5s text, one quarter through the source AST (lib/verifshim/scha: negative integer bounds, present-but-empty rules messages)",
     ],
     "mult_search": 3,
-    "refuted": ["C04_string_format_refuted", "C04_array_any_types_refuted", "C04_key_custom_refuted", "C04_key_informal_refuted", "C04_key_listrules_refuted", "C04_array_key_refuted",
+    "refuted": ["C04_string_format_refuted", "C04_array_any_types_refuted", "C04_array_key_custom_refuted", "C04_array_key_informal_refuted", "C04_key_custom_listrules_refuted", "C04_key_listrules_refuted", "C04_array_key_refuted",
                 "C04_array_date_rules_refuted", "C04_array_flatten_refuted", "C04_map_item_listrules_refuted", "C04_enum_unspecified_refuted",
                 "C04_full_refuted"],
     "partial": ["C04_partial", "C04_property", "C04_enum"],
 }
 
 MANIFEST = {
-    "text": "Theorem (for every object whose properties lie in the fragment rt_ok, all rule values: absent, zero, boundary, both booleans): reading back the annotations the modelled writer emits yields exactly the declared properties in normal form — names, order, proto paths [1..n], required / explicitly optional, every field type with format, flatten, key format uuid / id62 and entity key (primary, foreign, tenant), descriptions, validation rules (integer bounds with inclusivity, string, bytes, bool, enum in / not-in as names, array counts + uniqueness, date / decimal bounds) and list rules per type. Proved per field type as writer/reader inverse lemmas and lifted over singular / array / map properties and objects (oneof roots share the property code); enums as root schemas: description, prefix, option names, numbers and descriptions read back as declared (C04_enum). Writer and reader models are tied to the code by regenerated switch tables and by differential correspondence against the real compiler and the real reflector; the direct oracle compares declared and reflected schema_j5pb.ObjectProperty values and the schema reflected from the printed .proto text.",
-    "note": "Partial: outside the fragment the full statement is refuted on the model and on the real code (known findings): string format (never written), key:custom and key:informal formats, keys without format carrying list rules, array items whose annotation lives in (j5.ext.v1.field) (date/decimal rules, flatten, unformatted keys), list rules declared on map item schemas. The second clause (printed text) is checked by the direct oracle, not proved (one known finding: options on map values cannot be printed). Fourteen writer/reader asymmetries found by this check were repaired in /repo (KNOWN_FINDINGS.txt fixed: lines). All theorems closed under the global context.",
+    "text": "Theorem (for every object whose properties lie in the fragment rt_ok, all rule values: absent, zero, boundary, both booleans): reading back the annotations the modelled writer emits yields exactly the declared properties in normal form — names, order, proto paths [1..n], required / explicitly optional, every field type with format, flatten, key format (informal / custom / uuid / id62) and entity key (primary, foreign, tenant), descriptions, validation rules (integer bounds with inclusivity, string, bytes, bool, enum in / not-in as names, array counts + uniqueness, date / decimal bounds) and list rules per type. Proved per field type as writer/reader inverse lemmas and lifted over singular / array / map properties and objects (oneof roots share the property code); enums as root schemas: description, prefix, option names, numbers and descriptions read back as declared (C04_enum). Writer and reader models are tied to the code by regenerated switch tables and by differential correspondence against the real compiler and the real reflector; the direct oracle compares declared and reflected schema_j5pb.ObjectProperty values and the schema reflected from the printed .proto text.",
+    "note": "Partial: outside the fragment the full statement is refuted on the model and on the real code (known findings): string format (never written), key:custom / key:informal inside arrays, custom or unformatted keys carrying list rules, array items whose annotation lives in (j5.ext.v1.field) (date/decimal rules, flatten, unformatted keys), list rules declared on map item schemas. The second clause (printed text) is checked by the direct oracle, not proved (one known finding: options on map values cannot be printed). Sixteen writer/reader asymmetries found by this check were repaired in /repo (KNOWN_FINDINGS.txt fixed: lines). All theorems closed under the global context.",
     "technique": "Rocq/Coq proof (writer/reader inverse lemmas by case analysis, list induction for objects) over Gallina models of the annotation writer and the schema reader + regenerated switch tables + in-Coq differential correspondence against the real compiler and reflector",
 }
